@@ -1,5 +1,5 @@
 (* SmtpSendCorollaries.v — the statements of props/C03.v and props/C04.v derived from run_spec. *)
-From Coq Require Import String Lia.
+From Coq Require Import String.
 From Verif Require Import Bytes Textproto SendErr RefServer SmtpSend SmtpSendGen.
 From VerifProofs Require Import SmtpSendProofs SmtpSendGenProofs.
 Open Scope N_scope.
@@ -54,7 +54,7 @@ Lemma batch_commits_mask : forall ms rs, length rs = length ms ->
 Proof.
   induction ms as [|m t IH]; intros rs H; [destruct rs; reflexivity|].
   destruct rs as [|r rt]; [discriminate|]. cbn [batch_commits map combine filter snd].
-  rewrite (IH rt) by (cbn in H; lia).
+  rewrite (IH rt) by (cbn in H; injection H as H; exact H).
   destruct (acked r); cbn; reflexivity.
 Qed.
 
